@@ -179,16 +179,17 @@ def random_session(rng, nodes, nreq=25, aw=True, views=(), cd=False):
 # ------------------------------------------------------- run and validate
 
 class SrvCtx:
-    def __init__(self, scratch, harness, specdir, proto):
+    def __init__(self, scratch, harness, specdir, proto, sub="session", key="worlds", start_ev="World"):
         self.scratch, self.harness, self.specdir, self.proto = scratch, harness, specdir, proto
         self.batch = 0
+        self.sub, self.key, self.start_ev = sub, key, start_ev
 
 
-def split_worlds(lines):
+def split_worlds(lines, start_ev="World"):
     """Group trace lines by World event -> list of (world_index, [lines])."""
     groups = []
     for ln in lines:
-        if ln.get("ev") == "World":
+        if ln.get("ev") == start_ev:
             groups.append((ln.get("index"), [ln]))
         elif groups:
             groups[-1][1].append(ln)
@@ -200,9 +201,14 @@ def run_script(ctx, worlds, tag):
     sp = os.path.join(ctx.scratch, "script-%s.json" % tag)
     tp = os.path.join(ctx.scratch, "trace-%s.ndjson" % tag)
     with open(sp, "w") as f:
-        json.dump({"worlds": worlds}, f)
-    p = run_harness(ctx.harness, ["session", "-proto", ctx.proto, "-script", sp, "-out", tp], timeout=1800,
-                    env={"TMPDIR": ctx.scratch})
+        json.dump({ctx.key: worlds}, f)
+    args = [ctx.sub, "-script", sp, "-out", tp]
+    if ctx.proto:
+        args += ["-proto", ctx.proto]
+    iso = os.path.join(ctx.specdir, "iso.json")
+    if os.path.exists(iso):
+        args += ["-iso", iso]
+    p = run_harness(ctx.harness, args, timeout=3600, env={"TMPDIR": ctx.scratch})
     lines = read_ndjson(tp) if os.path.exists(tp) else []
     crash = None
     if p.returncode != 0:
@@ -220,6 +226,10 @@ def sig_of_line(ln):
     ev = ln.get("ev")
     if ev == "Req":
         return "Req:%s:%s:%s" % (ln["req"].get("op"), ln["resp"].get("k"), "closed" if ln.get("closed") else "open")
+    if ev == "Op":
+        return "Op:%s:%s" % (ln.get("op"), ln.get("err"))
+    if ev == "Open":
+        return "Open:%s" % ("canon-failed" if ln.get("canon", "ok") != "ok" else ("size" if ln.get("opened") else "open-failed"))
     return str(ev)
 
 
@@ -244,7 +254,7 @@ def run_and_validate(ctx, worlds, report, max_rejections=12, module="Ps3NetSrvTr
     remaining = list(todo)
     while remaining:
         lines, crash = run_script(ctx, [worlds[i] for i in remaining], "b%d-%d" % (ctx.batch, len(remaining)))
-        groups = split_worlds(lines)
+        groups = split_worlds(lines, ctx.start_ev)
         for k, (idx, g) in enumerate(groups):
             all_groups[remaining[k]] = g
         if crash is None:
@@ -258,7 +268,7 @@ def run_and_validate(ctx, worlds, report, max_rejections=12, module="Ps3NetSrvTr
             report.violation("crash:" + (first[0][:120] if first else "process died"),
                              "the process hosting the real server died while running world %s\n%s\n%s" % (
                                  worlds[bad]["name"], "\n".join(first[:2]), "\n".join(where)),
-                             {"script.json": {"worlds": [worlds[bad]]}, "stderr.txt": crash2})
+                             {"script.json": {ctx.key: [worlds[bad]]}, "stderr.txt": crash2})
             rejections += 1
         all_groups.pop(bad, None)
         remaining = remaining[remaining.index(bad) + 1:]
@@ -303,7 +313,7 @@ def run_and_validate(ctx, worlds, report, max_rejections=12, module="Ps3NetSrvTr
                     "behaviour that explains this observation.\nrejected event: %s\nlast explained event: %s" % (
                         worlds[badw]["name"], k - acc + 1, len(all_groups[badw]),
                         json.dumps(rl)[:1500], json.dumps(last_ok)[:600]))
-            report.violation(sig_of_line(rl), text, {"script.json": {"worlds": [worlds[badw]]},
+            report.violation(sig_of_line(rl), text, {"script.json": {ctx.key: [worlds[badw]]},
                                                     "trace.ndjson": "\n".join(json.dumps(x) for x in all_groups[badw]),
                                                     "tlc.out": v.res.out[-4000:]})
             rejections += 1
@@ -316,3 +326,52 @@ def run_and_validate(ctx, worlds, report, max_rejections=12, module="Ps3NetSrvTr
     report.cov["traces_validated_against_impl"] += len(set(traces))
     report.cov["evaluations"] += accepted_lines
     return rejections
+
+
+# ------------------------------------------- model -> code: TLC-generated sessions
+
+def abstract_to_req(a):
+    """Turn a request record printed by TLC into a script request."""
+    r = {"op": a["op"]}
+    od = a["op"]
+    if a.get("path"):
+        r["path"] = "/".join(a["path"])
+    elif od in ("OPEN_DIR", "STAT_FILE", "OPEN_FILE", "GET_DIR_SIZE", "CREATE_FILE", "DELETE_FILE", "MKDIR", "RMDIR"):
+        r["path"] = ""
+    if od in ("READ_FILE", "READ_FILE_CRITICAL"):
+        r["limit"], r["off"] = unpos(a["limit"]), unpos(a["off"])
+    if od == "READ_CD_2048":
+        r["start"], r["count"] = a["start"], a["count"]
+    if od == "WRITE_FILE":
+        r["plen"], r["chunk"] = a["plen"], a["chunk"]
+    return r
+
+
+def generate_sessions(specdir, module, cfg, overrides=None, timeout=900):
+    """Run the TLC generator config; returns (world dict, list of request lists, TlcResult)."""
+    cfgp = os.path.join(specdir, cfg)
+    if overrides:
+        txt = open(cfgp).read()
+        for k, v in overrides.items():
+            import re
+            txt = re.sub(r"(?m)^(\s*%s\s*=\s*).*$" % re.escape(k), r"\g<1>%s" % v, txt)
+        cfg = "gen_" + cfg
+        with open(os.path.join(specdir, cfg), "w") as f:
+            f.write(txt)
+    res = run_tlc(specdir, module, cfg, workers=1, timeout=timeout, heap="8g", deadlock=False)
+    tlc_must_pass(res, cfg)
+    w = res.printed("WORLD")
+    if not w:
+        raise CheckError("generator printed no WORLD")
+    world = json.loads(json.loads(w[-1]))
+    cases = [json.loads(json.loads(c))["reqs"] for c in res.printed("CASE")]
+    return world, cases, res
+
+
+def model_nodes(world):
+    nodes = []
+    for n in world["nodes"]:
+        if n["p"] == []:
+            continue
+        nodes.append(n)
+    return nodes
